@@ -96,8 +96,8 @@ impl Property for C03 {
         let mut read_calls = 1usize;
         for id in 0..nrows {
             let has_c = ch.chance(1, 5);
-            // calls seen before the checked call of this row
-            let mid = if has_c && !spec.override_write { 2 } else { 0 };
+            // calls made before the checked call of this row (two mid-clock writes for a C row)
+            let mid = if has_c { 2 } else { 0 };
             let call = read_calls + mid;
             let mut es = vec![];
             let mut c_used = false;
